@@ -138,7 +138,13 @@ func (c *Chain) SetIBCAlias(channel, baseDenom string) string {
 // bridge alias per chain (and an IBC alias when ibcChannel != ""), then adds the bridge tokens on each chain.
 // idx separates the derived contract addresses of several tokens.
 func (c *Chain) SetupModuleOwned(symbol string, idx int, chains []string, ibcChannel string) (*Token, error) {
-	t := &Token{Kind: TokModuleOwned, Base: strings.ToLower(symbol), Symbol: symbol}
+	return c.SetupModuleOwnedAs(strings.ToLower(symbol), symbol, idx, chains, ibcChannel)
+}
+
+// SetupModuleOwnedAs: the same with a base denom chosen by the caller (any string MsgRegisterCoin accepts: case variants and
+// near-misses of the special denoms included) instead of the lower-cased symbol.
+func (c *Chain) SetupModuleOwnedAs(denom, symbol string, idx int, chains []string, ibcChannel string) (*Token, error) {
+	t := &Token{Kind: TokModuleOwned, Base: denom, Symbol: symbol}
 	var aliases []string
 	for _, ch := range chains {
 		ca := ExternalContract(c.Seed, ch, idx)
@@ -152,6 +158,7 @@ func (c *Chain) SetupModuleOwned(symbol string, idx int, chains []string, ibcCha
 		aliases = append(aliases, t.IBCDenom)
 	}
 	md := fxtypes.GetCrossChainMetadataManyToOne(symbol+" token", symbol, 18, aliases...)
+	md.Base, md.Display, md.DenomUnits[0].Denom = denom, denom, denom
 	msg := &erc20types.MsgRegisterCoin{Authority: GovAuthority(), Metadata: md}
 	if err := msg.ValidateBasic(); err != nil {
 		return nil, err
